@@ -1,9 +1,302 @@
-import sys, os, json, time, re
+"""Driver: ./check <PID> --tier quick|thorough | --replay F | --dev <unit> | --setup | --all"""
+import sys, os, json, time, re, glob, hashlib, subprocess
+from concurrent.futures import ThreadPoolExecutor
 from . import unit as U, verus as V
 from .rules import Unsupported
 
 ROOT = os.path.dirname(os.path.dirname(os.path.abspath(__file__)))
 BUILD = os.path.join(ROOT, 'build')
+EVID = os.path.join(ROOT, 'evidence')
+REPLAY = os.path.join(ROOT, 'build', 'replay')
+
+
+def load_units():
+    us = []
+    for p in sorted(glob.glob(os.path.join(ROOT, 'contracts', '*.vc'))):
+        us.append(U.parse_vc(p))
+    return us
+
+
+def unit_props(u):
+    ps = set()
+    for fs in u.fns:
+        for c in fs.requires + fs.ensures + [c for l in fs.loops for c in l.invariants + l.ensures + l.except_break]:
+            ps.update(c.props())
+    ps.update(getattr(u, 'serves', []))
+    return ps
+
+
+def load_known():
+    p = os.path.join(ROOT, 'known-findings.json')
+    if not os.path.exists(p): return []
+    return json.load(open(p)).get('findings', [])
+
+
+class UnitRun:
+    pass
+
+
+def run_unit(u, tier):
+    """Build + verify one unit (and its reachability twin). Returns UnitRun."""
+    ur = UnitRun(); ur.unit = u; ur.error = None; ur.twin_missing = []
+    os.makedirs(BUILD, exist_ok=True)
+    t0 = time.time()
+    try:
+        gen = U.build(u, BUILD, twin=False)
+        tw = U.build(U.parse_vc(u.path), BUILD, twin=True)
+    except Unsupported as e:
+        ur.error = 'extraction: ' + str(e); ur.gen = None; ur.wall = time.time() - t0
+        return ur
+    out = os.path.join(BUILD, u.name + '.rs'); open(out, 'w').write(gen.text)
+    outt = os.path.join(BUILD, u.name + '_twin.rs'); open(outt, 'w').write(tw.text)
+    open(os.path.join(BUILD, u.name + '.diff'), 'w').write(gen.diff)
+    with ThreadPoolExecutor(max_workers=2) as ex:
+        f1 = ex.submit(V.run, out)
+        f2 = ex.submit(V.run, outt)
+        r = f1.result(); rt = f2.result()
+    ur.gen, ur.res = gen, r
+    ur.ver, ur.unsup = V.classify(r.diags, gen)
+    if r.timed_out: ur.error = 'verus timed out'
+    elif not r.have_results: ur.error = 'verus produced no verification results: ' + (ur.unsup[0].rendered[:600] if ur.unsup else r.raw_err[:600])
+    elif ur.unsup: ur.error = 'verus rejected the generated file: ' + ur.unsup[0].rendered[:600]
+    # twins: every injected assert(false) must be reported as failing
+    tver, tunsup = V.classify(rt.diags, tw)
+    hit = set()
+    for d in tver:
+        if d.kind == 'assert':
+            for (a, b, prim, lab) in d.lines:
+                for tid, ln in tw.marks.items():
+                    if tid.startswith('TWIN:') and a <= ln <= b: hit.add(tid)
+    ur.twin_points = list(tw.twin_points)
+    ur.twin_missing = [t for t in tw.twin_points if t not in hit]
+    if (not rt.have_results or tunsup) and not ur.error:
+        ur.error = 'reachability twin could not be checked: ' + (tunsup[0].rendered[:400] if tunsup else rt.raw_err[:400])
+    ur.twin_cmd = rt.cmd
+    ur.seeds = []
+    if tier == 'thorough' and not ur.error:
+        # stability: two more solver seeds and half the resource limit
+        extra = [['-V', 'smt.random_seed=7'] if False else ['--smt-option', 'smt.random_seed=7'], ['--smt-option', 'smt.random_seed=31', '--rlimit', '5']]
+        for ex_ in extra:
+            rr = V.run(out, extra=ex_)
+            v2, u2 = V.classify(rr.diags, gen)
+            ur.seeds.append({'args': ' '.join(ex_), 'verified': rr.verified, 'errors': rr.errors, 'failed': sorted({(d.clause.id if d.clause else d.fn or '?') for d in v2}), 'have_results': rr.have_results})
+    ur.wall = time.time() - t0
+    return ur
+
+
+IMPLICIT = {'overflow': 'C15.int', 'decreases': 'C15.term'}
+
+
+def implicit_tag(d):
+    if d.kind == 'overflow': return 'C15.int'
+    if d.kind == 'decreases': return 'C15.term'
+    if d.kind == 'precondition':
+        r = d.rendered
+        if 'index in bounds' in d.message or 'index' in r and 'vec' in r.lower(): return 'C15.index'
+        if 'std_specs/ops.rs' in r and ('/' in (r.split('\n')[3] if len(r.split('\n')) > 3 else '')): return 'C15.div'
+        if 'unwrap' in r or 'expect' in r: return 'C15.unwrap'
+    return None
+
+
+def decide(pid, runs, known):
+    """Returns dict with verdict info for property pid."""
+    obligations = []      # dicts
+    violations = []; undecided = []; known_seen = []
+    for ur in runs:
+        u = ur.unit
+        if ur.gen is None:
+            undecided.append({'unit': u.name, 'why': ur.error}); continue
+        failed_by_clause = {}
+        for d in ur.ver:
+            if d.clause is not None: failed_by_clause.setdefault(d.clause.id, []).append(d)
+        fn_support_fail = {}
+        for d in ur.ver:
+            tagged = d.clause is not None and d.clause.is_property
+            if not tagged:
+                fn_support_fail.setdefault(d.fn, []).append(d)
+        serves_c15 = 'C15' in getattr(u, 'serves', [])
+        for c in ur.gen.clauses:
+            if pid not in c.props(): continue
+            tags = [t for t in c.tag.split(',') if t.split('.')[0] == pid]
+            ob = {'id': tags[0], 'tags': tags, 'unit': u.name, 'function': c.fn, 'kind': c.kind, 'clause': c.text, 'backend': 'Verus-Z3', 'src': f'contracts/{u.name}.vc:{c.src_line}'}
+            fd = ur.res.fn_details
+            if c.id in failed_by_clause:
+                d = failed_by_clause[c.id][0]
+                ob['status'] = 'failed'; ob['diagnostic'] = d.rendered[:3000]; ob['failed_in'] = d.fn
+                if d.kind == 'rlimit': ob['status'] = 'undecided'; ob['why'] = 'resource limit'
+            elif ur.error:
+                ob['status'] = 'undecided'; ob['why'] = ur.error
+            else:
+                ob['status'] = 'discharged'
+            obligations.append(ob)
+        if pid == 'C15' and serves_c15:
+            # implicit safety obligations: one per function of the unit, discharged unless a safety diagnostic hits it
+            fns = sorted({n for n, a, b in ur.gen.fn_ranges if not n.startswith('verif_') and _in_extracted(n, ur.gen)})
+            bad = {}
+            for d in ur.ver:
+                if d.clause is None:
+                    t = implicit_tag(d)
+                    if t: bad.setdefault(d.fn, []).append((t, d))
+            for n in fns:
+                ob = {'id': 'C15.safety', 'tags': ['C15.safety'], 'unit': u.name, 'function': n, 'kind': 'implicit', 'backend': 'Verus-Z3',
+                      'clause': 'no Decimal division by zero, no out-of-bounds index, no integer overflow, no failing unwrap, every loop terminates'}
+                if n in bad:
+                    t, d = bad[n][0]
+                    ob['id'] = t; ob['status'] = 'failed'; ob['diagnostic'] = d.rendered[:3000]; ob['failed_in'] = n
+                elif ur.error: ob['status'] = 'undecided'; ob['why'] = ur.error
+                else: ob['status'] = 'discharged'
+                obligations.append(ob)
+        # support failures make the property obligations of that function undecided
+        for ob in obligations:
+            if ob['unit'] != u.name or ob['status'] != 'discharged': continue
+            sf = fn_support_fail.get(_short(ob['function']), []) or fn_support_fail.get(ob['function'], [])
+            sf = [d for d in sf if not (pid == 'C15' and implicit_tag(d))]
+            if sf:
+                ob['status'] = 'undecided'
+                ob['why'] = 'support obligation failed in the same function: ' + sf[0].message + ' @' + str(sf[0].primary_line)
+                ob['diagnostic'] = sf[0].rendered[:1500]
+        if ur.twin_missing:
+            for ob in obligations:
+                if ob['unit'] == u.name and any(ob['function'] in t for t in ur.twin_missing):
+                    ob['status'] = 'undecided'; ob['why'] = 'vacuity guard: assert(false) verified in ' + ','.join(ur.twin_missing)
+    # known findings
+    for ob in obligations:
+        if ob['status'] != 'failed': continue
+        kf = [k for k in known if k.get('status', 'open') == 'open' and k['property'] == pid and k['obligation'] in ob['tags'] + [ob['id']] and (k.get('function') in (None, ob['function'], ob.get('failed_in')))]
+        if kf:
+            ob['status'] = 'known-finding'; ob['finding'] = kf[0]['id']
+            known_seen.append((kf[0], ob))
+        else:
+            violations.append(ob)
+    for ob in obligations:
+        if ob['status'] == 'undecided': undecided.append(ob)
+    return {'obligations': obligations, 'violations': violations, 'undecided': undecided, 'known_seen': known_seen}
+
+
+def _short(fn):
+    return fn
+
+
+def _in_extracted(n, gen):
+    return any(n.startswith(p) for p in ('matcher', 'models', 'calculator', 'config', 'validation', 'cgt_money', 'schwab', 'cgt_format', 'error', 'ordering'))
+
+
+def trusted_scan(gen_text):
+    pats = ['external_body', 'assume_specification', 'uninterp spec fn', 'axiom fn', 'assume(', 'admit(', 'external_fn_specification', '#[verifier::external']
+    out = {}
+    for p in pats:
+        out[p] = gen_text.count(p)
+    return out
+
+
+def write_evidence(pid, tier, seed, runs, dec, wall, kani=None):
+    os.makedirs(EVID, exist_ok=True)
+    obs = dec['obligations']
+    n = len(obs); disch = sum(1 for o in obs if o['status'] == 'discharged')
+    trusted = []
+    fns = []
+    hunks = {}
+    cmds = []
+    solver_s = 0.0
+    twins = {'points': 0, 'failed_as_required': 0}
+    for ur in runs:
+        if ur.gen is None: continue
+        ts = trusted_scan(ur.gen.text)
+        trusted.append(f'unit {ur.unit.name}: ' + ', '.join(f'{k}={v}' for k, v in ts.items() if v))
+        for r, b, a in ur.gen.log: hunks[r] = hunks.get(r, 0) + 1
+        for f in ur.gen.functions:
+            fns.append({'function': f, 'unit': ur.unit.name})
+        cmds.append(ur.res.cmd)
+        solver_s += ur.res.smt_ms / 1000.0
+        twins['points'] += len(ur.twin_points); twins['failed_as_required'] += len(ur.twin_points) - len(ur.twin_missing)
+    if kani:
+        for k in kani:
+            cmds.append(k['cmd']); solver_s += k.get('solver_s', 0)
+    ev = {
+        'property_id': pid, 'tier': tier, 'seed': seed, 'level': 'proof',
+        'coverage': {
+            'obligations': n, 'discharged': disch,
+            'checker_cmd': ' ; '.join(cmds) if cmds else 'none',
+            'trusted_base': trusted + TRUSTED_COMMON,
+            'functions_under_contract': fns,
+            'rewrite_hunks': hunks,
+            'per_obligation': [{k: o.get(k) for k in ('id', 'tags', 'unit', 'function', 'kind', 'backend', 'status', 'why', 'finding', 'src') if o.get(k) is not None} for o in obs],
+            'undischarged': [o['id'] + ' @ ' + o['function'] for o in obs if o['status'] != 'discharged'],
+            'known_findings_seen': [k['id'] for k, _ in dec['known_seen']],
+            'reachability_twins': twins,
+            'samples': [{'id': o['id'], 'function': o['function'], 'clause': o['clause']} for o in obs[:6]],
+            'solver_time_s': round(solver_s, 2),
+            'explanation': 'obligations = contract clauses tagged with this property (plus one implicit safety obligation per function for C15); each is discharged by the named back end on the text extracted from /repo on this run',
+            'stability_runs': [s for ur in runs for s in getattr(ur, 'seeds', [])],
+        },
+        'assumptions': ASSUMPTIONS.get(pid, []) + ASSUMPTIONS_COMMON,
+        'wall_s': round(wall, 2),
+        'violations': len(dec['violations']),
+    }
+    json.dump(ev, open(os.path.join(EVID, pid + '.json'), 'w'), indent=1)
+    return ev
+
+
+TRUSTED_COMMON = [
+    'Verus 0.2026.09.13 + Z3 (verifier soundness)',
+    'extractor rewrite rules R0-R12 (auditable: build/<unit>.diff is regenerated on every run)',
+    'shim/*.rs: Decimal as exact real (A-dec), NaiveDate as day number (A-date, axioms Kani-checked in K-chrono), HashMap as Map with unspecified iteration order (A-map), derived Clone is field-wise',
+]
+ASSUMPTIONS_COMMON = [
+    'A-dec: rust_decimal arithmetic is treated as exact real arithmetic: 96-bit mantissa, 28-digit rounding of * and /, and overflow panics are not modelled',
+    'A-ext: bodies never entered: pest/pest_consume parser, serde, format!/Display (message wording not decided), iso_currency, std::fs, clap, typst, tokio, rmcp',
+    'spec functions in spec/*.rs are a faithful reading of the property text',
+]
+ASSUMPTIONS = {}
+
+
+def write_replay(pid, ob, runs):
+    os.makedirs(REPLAY, exist_ok=True)
+    h = hashlib.sha256((ob['id'] + ob['function'] + ob['clause']).encode()).hexdigest()[:10]
+    p = os.path.join(REPLAY, f'{pid}-{ob["id"].replace(".", "_")}-{h}.json')
+    json.dump({'property': pid, 'obligation': ob['id'], 'tags': ob['tags'], 'unit': ob['unit'], 'function': ob['function'], 'failed_in': ob.get('failed_in'),
+               'kind': ob['kind'], 'clause': ob['clause'], 'backend': ob['backend'], 'verifier_output': ob.get('diagnostic', ''),
+               'counterexample': ob.get('counterexample'), 'note': 'Verus gives no counterexample: no-failing-input-found' if ob['backend'].startswith('Verus') and not ob.get('counterexample') else ''}, open(p, 'w'), indent=1)
+    return p
+
+
+def check(pid, tier, seed):
+    t0 = time.time()
+    units = [u for u in load_units() if pid in unit_props(u)]
+    from . import kani as K
+    kunits = K.units_for(pid)
+    if not units and not kunits:
+        print(f'no checks serve {pid}'); return 2
+    known = load_known()
+    with ThreadPoolExecutor(max_workers=8) as ex:
+        futs = [ex.submit(run_unit, u, tier) for u in units]
+        kf = [ex.submit(K.run_unit, k, tier) for k in kunits]
+        runs = [f.result() for f in futs]
+        kruns = [f.result() for f in kf]
+    dec = decide(pid, runs, known)
+    kinfo = []
+    for kr in kruns:
+        K.merge(pid, kr, dec, known)
+        kinfo.append({'cmd': kr['cmd'], 'solver_s': kr.get('solver_s', 0)})
+    wall = time.time() - t0
+    ev = write_evidence(pid, tier, seed, runs, dec, wall, kinfo)
+    for k, ob in dec['known_seen']:
+        print(f'KNOWN-FINDING: property={pid} {ob["id"]} in {ob["function"]}: {k["what"]}')
+    rc = 0
+    if dec['violations']:
+        for ob in dec['violations']:
+            rp = write_replay(pid, ob, runs)
+            tail = '' if ob.get('counterexample') else ' no-failing-input-found'
+            print(f'obligation {ob["id"]} ({ob["kind"]}) failed in {ob.get("failed_in") or ob["function"]} [{ob["backend"]}]: {ob["clause"][:160]}')
+            print(f'VIOLATION property={pid} replay={rp}{tail}')
+        rc = 1
+    elif dec['undecided']:
+        for o in dec['undecided'][:10]:
+            print('UNDECIDED:', o.get('id', o.get('unit')), '-', o.get('why', '')[:300])
+        rc = 2
+    n = len(dec['obligations']); d = sum(1 for o in dec['obligations'] if o['status'] == 'discharged')
+    print(f'{pid}: {d}/{n} obligations discharged, {len(dec["violations"])} violations, {len(dec["known_seen"])} known findings, {len(dec["undecided"])} undecided, {wall:.1f}s')
+    return rc
 
 
 def dev(name, twin=False):
@@ -13,7 +306,10 @@ def dev(name, twin=False):
     out = os.path.join(BUILD, name + ('_twin' if twin else '') + '.rs')
     open(out, 'w').write(gen.text)
     open(os.path.join(BUILD, name + '.diff'), 'w').write(gen.diff)
-    r = V.run(out)
+    extra = []
+    for a in sys.argv:
+        if a.startswith('--fn='): extra = ['--verify-function', a[5:]]
+    r = V.run(out, extra=extra)
     ver, unsup = V.classify(r.diags, gen)
     print(f'verus: verified={r.verified} errors={r.errors} wall={r.wall:.1f}s smt={r.smt_ms}ms results={r.have_results}')
     for d in unsup:
@@ -22,16 +318,52 @@ def dev(name, twin=False):
         c = d.clause
         print(f'-- {d.kind} in {d.fn}: {d.message}' + (f'  => clause {c.id} [{c.tag or "support"}] {c.kind} of {c.fn}: {c.text[:100]}' if c else ''))
         if not c or '-v' in sys.argv: print(d.rendered[:1200])
+    if '--times' in sys.argv:
+        for k, v in sorted(r.fn_details.items(), key=lambda kv: -kv[1]['ms'])[:15]: print(v['ms'], 'ms', k)
     return r
+
+
+def replay(pid, path):
+    j = json.load(open(path))
+    print(f'replay {path}: obligation {j["obligation"]} in {j["function"]} ({j["backend"]})')
+    if j.get('counterexample'):
+        from . import kani as K
+        return K.replay(j)
+    # Verus: re-run the unit and report whether the named obligation still fails
+    units = [u for u in load_units() if u.name == j['unit']]
+    ur = run_unit(units[0], 'quick')
+    dec = decide(pid, [ur], [])
+    for ob in dec['obligations']:
+        if ob['id'] == j['obligation'] and ob['function'] == j['function'] and ob['clause'] == j['clause']:
+            print('status now:', ob['status'])
+            if ob['status'] == 'failed':
+                print(ob.get('diagnostic', '')[:2000])
+                print(f'VIOLATION property={pid} replay={path} no-failing-input-found')
+                return 1
+            return 0 if ob['status'] == 'discharged' else 2
+    print('obligation not found in current contracts'); return 2
 
 
 def main():
     a = sys.argv[1:]
-    if a and a[0] == '--dev':
-        dev(a[1], twin='--twin' in a)
-        return 0
-    print('usage: check --dev <unit>')
-    return 2
+    if not a:
+        print('usage: check <PID> [--tier quick|thorough] | --replay F | --dev <unit> | --setup'); return 2
+    if a[0] == '--dev':
+        dev(a[1], twin='--twin' in a); return 0
+    if a[0] == '--setup':
+        from . import kani as K
+        return K.setup()
+    pid = a[0]
+    tier = os.environ.get('VERIF_TIER', 'quick')
+    if '--tier' in a: tier = a[a.index('--tier') + 1]
+    seed = int(os.environ.get('VERIF_SEED', '0') or 0)
+    if '--replay' in a:
+        return replay(pid, a[a.index('--replay') + 1])
+    try:
+        return check(pid, tier, seed)
+    except Unsupported as e:
+        print('UNDECIDED:', e); return 2
+
 
 if __name__ == '__main__':
     sys.exit(main())
